@@ -7,7 +7,7 @@
    what the harness observes; the theorems below that mention it are statements about that
    description, tied to the library by observation, not by proof. *)
 From FRP Require Import Model.HttpRewrite Proofs.HttpRewriteProofs Model.HttpAdmit Proofs.HttpAdmitProofs
-  gen.GenVhostTransport gen.GenRecycle gen.GenMuxDeadline.
+  gen.GenVhostTransport gen.GenRecycle gen.GenMuxDeadline gen.GenGroupGlue.
 From Coq Require Import Permutation.
 Open Scope Z_scope.
 
@@ -262,6 +262,83 @@ Theorem C02_large_request_heads_admitted :
   hsv_head_admitted gen_vhost_server_fields head_bytes = Some true.
 Proof. exact (hsv_literal_ok_sound gen_vhost_server_literals gen_vhost_server_fields (eq_refl true)). Qed.
 Print Assumptions C02_large_request_heads_admitted.
+
+(* ---- http load-balancing groups behind a route of the vhost http port ---- *)
+
+(* Reflective over today's Rewrite closure and connectHandler (translator unit t9gr): the endpoint chosen for a
+   request is the one its pool key (and RequestRouteInfo.Endpoint, by which the connection is dialled) names,
+   whatever was chosen; and a CONNECT obtains its connection through CreateConnection(info, false), i.e. from the
+   group's round robin over its members *)
+Theorem C02_group_request_dialled_and_pooled_by_chosen_member :
+  (forall chosen, hg_key_endpoint gen_group_glue chosen = chosen) /\
+  (forall ms index, hg_connect_conn gen_group_glue ms index = hg_create_conn ms index).
+Proof. exact (hg_glue_ok_sound gen_group_glue (eq_refl true)). Qed.
+Print Assumptions C02_group_request_dialled_and_pooled_by_chosen_member.
+
+(* hence a CONNECT to a group with at least one member gets a connection to a member (never the 404 of
+   "no connection"), for every value of the group's counter *)
+Theorem C02_connect_to_live_group_gets_a_member : forall ms index,
+  ms <> [] -> exists b, hg_connect_conn gen_group_glue ms index = Some b.
+Proof.
+  intros ms index H. rewrite (proj2 C02_group_request_dialled_and_pooled_by_chosen_member).
+  exact (hg_create_conn_live ms index H).
+Qed.
+Print Assumptions C02_connect_to_live_group_gets_a_member.
+
+(* non-vacuity: with a shadowed endpoint variable (`endpoint, err := ...`) the key names no member; with a dial by
+   endpoint in connectHandler a CONNECT finds nobody *)
+Theorem C02_group_glue_variants_refused :
+  let shadow := {| hgl_choose_tok := ":="; hgl_choose_target := "endpoint"; hgl_urlhost_reads_endpoint := true;
+                   hgl_info_endpoint_from := "endpoint"; hgl_connect_callee := "rp.CreateConnection";
+                   hgl_connect_by_endpoint := "false" |} in
+  let dialctx := {| hgl_choose_tok := "="; hgl_choose_target := "endpoint"; hgl_urlhost_reads_endpoint := true;
+                    hgl_info_endpoint_from := "endpoint"; hgl_connect_callee := "rp.transport.DialContext";
+                    hgl_connect_by_endpoint := "req.Host" |} in
+  hg_glue_ok shadow = false /\ hg_key_endpoint shadow (hr_b "alpha") = [] /\
+  hg_glue_ok dialctx = false /\ hg_connect_conn dialctx [(hr_b "alpha", 1); (hr_b "beta", 2)] 7 = None.
+Proof. vm_compute. repeat split. Qed.
+Print Assumptions C02_group_glue_variants_refused.
+
+(* REFUTED (recorded finding C02:http-group:rejoin-same-member-name-reuses-former-backend): the pool key of a group
+   route cannot tell two registrations apart when the member names agree -- a group route keeps registration
+   id 0 (it is added to the router directly) -- so a member joining under a former member's name inherits the idle
+   connections to the former backend.  PARTIAL: routes registered through HTTPReverseProxy.Register carry their
+   own id (hc_id), which is part of the key. *)
+Theorem C02_group_pool_key_ignores_registration_refuted : forall rc1 rc2,
+  hc_domain rc1 = hc_domain rc2 -> hc_location rc1 = hc_location rc2 -> hc_user rc1 = hc_user rc2 ->
+  hc_endpoint rc1 = hc_endpoint rc2 -> hc_id rc1 = 0 -> hc_id rc2 = 0 ->
+  hr_pool_key rc1 = hr_pool_key rc2.
+Proof. intros rc1 rc2 H1 H2 H3 H4 H5 H6. unfold hr_pool_key. rewrite H1, H2, H3, H4, H5, H6. reflexivity. Qed.
+Print Assumptions C02_group_pool_key_ignores_registration_refuted.
+
+(* Reflective over today's createConn / createConnByEndpoint (unit t9gr): the group's read lock is released before
+   a member's connection is created ... *)
+Theorem C02_group_dial_made_without_the_group_lock :
+  forall (name : string) (evs : list lk_ev), In (name, evs) gen_group_dial_shapes -> lk_held_at_dial evs false false = Some false.
+Proof. exact (lk_dial_shapes_ok_sound gen_group_dial_shapes (eq_refl true)). Qed.
+Print Assumptions C02_group_dial_made_without_the_group_lock.
+
+(* ... and with that shape, for ALL interleavings of a request whose member dial never returns (D), a
+   membership change (W: write lock) and another request (R): afterwards W and R run to completion
+   (lk_completes).  With the dial made under the read lock one interleaving blocks both for ever (Go's RWMutex:
+   a waiting writer blocks new readers). *)
+Theorem C02_stalled_member_dial_blocks_nobody : forall sched, lk_completes false (lk_run false sched) = true.
+Proof. exact lk_unlocked_dial_blocks_nobody. Qed.
+Print Assumptions C02_stalled_member_dial_blocks_nobody.
+
+Theorem C02_dial_under_group_lock_would_hang : forall rest,
+  lk_run true [LkD; LkW] = lk_stuck_state /\
+  let e := fold_left (lk_step true) rest (lk_run true [LkD; LkW]) in ls_w e = 1 /\ ls_r e = 0.
+Proof. exact lk_locked_dial_hangs_the_group. Qed.
+Print Assumptions C02_dial_under_group_lock_would_hang.
+
+(* ---- quic as transport: a stream is closed gracefully ---- *)
+(* Reflective over wrapQuicStream.Close (unit t9gr): it calls Stream.Close and not CancelWrite, so everything
+   written before the close reaches the peer, whatever had been delivered at that moment *)
+Theorem C02_quic_stream_close_delivers_written_bytes : forall written delivered_so_far,
+  qs_received gen_quic_close_calls written delivered_so_far = written.
+Proof. intros. apply qs_graceful_delivers. vm_compute. reflexivity. Qed.
+Print Assumptions C02_quic_stream_close_delivers_written_bytes.
 
 (* hypotheses are satisfiable / the functions compute *)
 Example C02_ex_route : hr_route :=
